@@ -1016,7 +1016,9 @@ pub fn main(args: &[String]) -> Result<(), String> {
             }
         });
     }
-    for (k, line) in inp.lines().filter(|l| !l.trim().is_empty()).enumerate().skip(from) {
+    // a runtime whose tasks were left behind keeps its driver's descriptors: the caller restarts this process every `max` scripts
+    let max: usize = args.get(3).map(|s| s.parse().unwrap()).unwrap_or(usize::MAX);
+    for (k, line) in inp.lines().filter(|l| !l.trim().is_empty()).enumerate().skip(from).take(max) {
         idx.store(k as u64, Ordering::Relaxed);
         let sc: J = serde_json::from_str(line).map_err(|e| e.to_string())?;
         let rt = tokio::runtime::Builder::new_current_thread().enable_all().start_paused(true).build().unwrap();
